@@ -105,7 +105,7 @@ def correspond(ctx):
             if kind in ('iasls', 'drpls') and d < 2:
                 continue
             for n in sizes_for(d):
-                if not ctx.thorough and rng.random() < 0.55:
+                if not ctx.thorough and rng.random() < 0.2:
                     continue
                 lam = float(lams[int(rng.integers(0, len(lams)))])
                 solver = int(rng.integers(1, 5))
@@ -239,7 +239,7 @@ def correspond(ctx):
     from pybaselines.two_d import _whittaker_utils as wu2
     for host in ('asls', 'arpls', 'iarpls', 'psalsa'):
         for (m, n, dr, dc) in [(6, 5, 2, 2), (7, 4, 1, 2), (5, 8, 3, 1), (4, 4, 2, 1), (9, 7, 2, 3)]:
-            if not ctx.thorough and rng.random() < 0.4:
+            if not ctx.thorough and rng.random() < 0.1:
                 continue
             x, z, Y = M.make_data2d(rng, m, n)
             lamr, lamc = float(10.0 ** int(rng.integers(-1, 5))), float(10.0 ** int(rng.integers(-1, 5)))
@@ -278,7 +278,7 @@ def correspond(ctx):
     for d in (1, 2, 3):
         for n in sorted(set([d + 2, 2 * d + 2, 2 * d + 3, 12, 40])):
             for solver in (1, 2, 3, 4):
-                if not ctx.thorough and rng.random() < 0.5:
+                if not ctx.thorough and rng.random() < 0.15:
                     continue
                 x, y = data_1d(rng, n)
                 hw = int(rng.integers(1, 4))
@@ -501,7 +501,7 @@ def correspond(ctx):
     # (kron(lam_r P_r, I) + kron(I, lam_c P_c) with main_diagonal + w); dyadic lam and weights, so the first solve is exact
     for host in ('asls', 'arpls', 'airpls'):
         for (m, n, dr, dc) in [(3, 3, 1, 2), (4, 5, 2, 1), (5, 4, 1, 3), (6, 5, 2, 2), (4, 7, 3, 2), (5, 5, 2, 3), (2, 6, 1, 2), (7, 3, 3, 1)]:
-            if not ctx.thorough and rng.random() < 0.5:
+            if not ctx.thorough and rng.random() < 0.15:
                 continue
             x, z, Y = M.make_data2d(rng, m, n)
             lamr, lamc = float(2.0 ** int(rng.integers(-3, 12))), float(2.0 ** int(rng.integers(-3, 12)))
@@ -538,7 +538,7 @@ def correspond(ctx):
     # the returned baseline and the returned weights must satisfy the documented system together
     for host in ('asls', 'airpls', 'arpls', 'iarpls', 'psalsa', 'lsrpls', 'brpls'):
         for (m, n, dr, dc) in [(6, 5, 2, 1), (5, 7, 1, 2), (7, 6, 2, 2)]:
-            if not ctx.thorough and rng.random() < 0.35:
+            if not ctx.thorough and rng.random() < 0.1:
                 continue
             x, z, Y = M.make_data2d(rng, m, n)
             lamr, lamc = float(10.0 ** int(rng.integers(0, 4))), float(10.0 ** int(rng.integers(0, 4)))
